@@ -135,6 +135,10 @@ func newSpan(min *Version, minOpen bool, max *Version, maxOpen bool) (span, erro
 	max.build = ""
 	switch {
 	case min.equal(max):
+		if minOpen || maxOpen {
+			// [a,a) and (a,a] hold nothing; a unit span would match a.
+			return span{rank: empty}, nil
+		}
 		return span{
 			minOpen: minOpen,
 			maxOpen: maxOpen,
